@@ -166,7 +166,10 @@ def run_proto(proto: str, dt: bool, chunks: list[bytes], end: str):
 
     f = _loop().create_future()
     if proto == "g":
-        p = GeminiClientProtocol("gemini://example.org/p", f, decode_text=dt)
+        try:
+            p = GeminiClientProtocol("gemini://example.org/p", f, decode_text=dt)
+        except TypeError:      # revisions before the proxy fix have no decode_text switch (they always decode)
+            p = GeminiClientProtocol("gemini://example.org/p", f)
     else:
         p = TitanClientProtocol("titan://example.org/p;size=3;mime=text/plain", b"abc", f)
     t = FakeTransport()
@@ -279,6 +282,7 @@ PY_LABELS = sorted(set(encodings.aliases.aliases.keys()) | set(encodings.aliases
 ODD_LABELS = ["", "bogus", "x-unknown-8", "undefined", "idna", "punycode", "base64", "hex", "rot13", "zip", "bz2", "uu", "quopri",
               "unicode_escape", "raw_unicode_escape", "utf-16", "utf-32", "utf-7", "utf_8_sig", "UTF-8", "Latin-1", "utf\x008", "mbcs", "oem",
               "a" * 300, "utf-8 ", "é", "charmap", "ascii", "cp1252", "shift_jis", "gb18030", "euc-kr", "big5", "koi8-r", "iso-8859-15"]
+RAISING_LABELS = ["undefined", "idna", "punycode", "utf\x008", "IDNA", "Undefined"]     # codecs that raise something unusual
 BODIES = [b"", b"hi", "héllo wörld ✓\n".encode(), b"\xff\xfe\x00", b"xn--", b"a..b", b"\\x", b"\x80abc", b"+AGE-", bytes(range(256)),
           b"=> gemini://x/ link\r\n# t\r\n", b"\r\n\r\n", b"a" * 70, b"\x1b$B", "日本語".encode("shift_jis"), "€".encode("cp1252"), b"\xef\xbb\xbfbom"]
 TEXT_MIMES = ["text/gemini", "text/plain", "TEXT/Gemini", "text/html", "text/x-foo", "", " text/plain "]
@@ -291,13 +295,14 @@ def gen_header(rng: random.Random):
     """(header line bytes without CRLF, class)"""
     r = rng.random()
     if r < 0.62:
-        st = rng.choice([20] * 6 + list(range(10, 70)))
+        st = rng.choice([20] * 40 + list(range(10, 70)))
         if 20 <= st < 30:
             if rng.random() < 0.72:
                 mime = rng.choice(TEXT_MIMES)
                 params = []
                 if rng.random() < 0.75:
-                    lab = rng.choice(PY_LABELS) if rng.random() < 0.6 else rng.choice(ODD_LABELS)
+                    x = rng.random()
+                    lab = rng.choice(PY_LABELS) if x < 0.5 else rng.choice(ODD_LABELS) if x < 0.82 else rng.choice(RAISING_LABELS)
                     q = rng.choice(["", "", '"', "'"])
                     params.append(rng.choice(["charset=", "CHARSET=", "Charset="]) + q + lab + q)
                 if rng.random() < 0.3:
@@ -406,7 +411,7 @@ class Proto(Family):
             else:
                 cuts = sorted(rng.sample(range(1, ln), min(ln - 1, rng.randint(1, 6))))
             end = rng.choice(["close", "close", "close", "reset", "stall"])
-            end_at = None if rng.random() < 0.6 else rng.randrange(ln + 1)
+            end_at = None if rng.random() < 0.72 else rng.randrange(ln + 1)
             count += 1
             yield case(st, cls, cuts, end, end_at, dt=rng.random() < 0.85)
 
@@ -500,6 +505,19 @@ class Proto(Family):
 # ----------------------------------------------------------------------------
 # session: the real GeminiClient on the virtual-clock loop
 # ----------------------------------------------------------------------------
+_CTX = None
+
+
+def _dummy_ctx():
+    """the fake create_connection ignores it; building the default context for every case would dominate the run time"""
+    global _CTX
+    if _CTX is None:
+        import ssl
+
+        _CTX = ssl.SSLContext(ssl.PROTOCOL_TLS_CLIENT)
+    return _CTX
+
+
 class Session(Family):
     name = "session"
     quick_n = 1200
@@ -531,7 +549,10 @@ class Session(Family):
         script = ServerScript(chunks, delays, case["end"], case["end_delay"], case["connect_delay"])
         loop.scripts.append(script)
         loop.set_exception_handler(lambda lp, ctx: script.escaped.append(ctx.get("exception")) if ctx.get("exception") else None)
-        client = GeminiClient(timeout=case["timeout"], trust_on_first_use=False, decode_text=case["dt"])
+        try:
+            client = GeminiClient(timeout=case["timeout"], trust_on_first_use=False, decode_text=case["dt"], ssl_context=_dummy_ctx())
+        except TypeError:      # older revisions: no decode_text
+            client = GeminiClient(timeout=case["timeout"], trust_on_first_use=False, ssl_context=_dummy_ctx())
 
         async def go():
             try:
@@ -677,8 +698,12 @@ class Live(Family):
         want = None
         if i >= 0 and res[0] == "resp" and res[3] is not None:
             raw = data[i + 2:]
-            meta = data[:i].decode().split(" ", 1)[1]
-            want = canon_body(raw.decode(declared_charset(meta))) if is_text(meta) else canon_body(raw)
+            meta = data[:i].decode("utf-8", "replace").split(" ", 1)[1] if b" " in data[:i] else ""
+            if is_text(meta):
+                kind, text = decode_kind(raw, declared_charset(meta))
+                want = canon_body(text) if kind == 0 else ["undecodable"]
+            else:
+                want = canon_body(raw)
         return {"res": res, "elapsed": round(el, 3), "want_body": want, "sent": len(data), "rx_ok": bool(log and log[0]["rx"]), "fin": fin}
 
     def oracle(self, case, obs):
@@ -695,10 +720,8 @@ class Live(Family):
                 return ("bad-response", f"{res}")
             if res[3] is not None and res[3] != obs["want_body"]:
                 return ("body-mismatch", f"{case['kind']}: body {res[3]} is not what the server sent after the first CRLF ({obs['want_body']})")
-            if cls == "err":
-                return ("error-expected", f"{case['kind']}: got a response {res} where the stream is invalid / over the cap")
-        if cls == "resp" and res[0] != "resp":
-            return ("response-expected", f"{case['kind']}: a complete valid response ended the call with {res}")
+            if case["kind"] == "cap":
+                return ("cap-not-enforced", f"got a response {res[:3]} for a body of {obs['sent']} bytes")
         return None
 
     def key(self, case, obs):
